@@ -91,6 +91,14 @@ def run(ctx):
             pi += 1
     # 2. directory trees to depth 3, relative and absolute patterns
     tcases, tmeta = [], []
+    # names and patterns with characters of several bytes: a name matches a pattern byte for byte, whatever the sizes in characters
+    u_dirs = ["d\u00e9", "\u00fc"]
+    u_files = ["\u00e9", "\u00e9.txt", "a\u00e9", "\u00e9a", "\u65e5\u672c.txt", "\u20ac", "e", "d\u00e9/\u00e9", "d\u00e9/x\u00e9y.txt", "\u00fc/\u20ac", "\u00fc/a\u20ac"]
+    u_pats = ["\u00e9", "*\u00e9", "\u00e9*", "*\u00e9*", "*.txt", "d*/\u00e9", "d\u00e9/*", "*\u00e9/\u00e9*", "\u00fc/*\u20ac", "\u20ac", "*", "e", "\u00e9.txt", "*\u672c.txt", "\u65e5*", "d*/*\u00e9*", "*\u00fc*/*", "a\u00e9", "*a"]
+    u_entries = [[d, True] for d in u_dirs] + [[f, False] for f in u_files]
+    for ab in (False, True):
+        tcases.append({"op": "glob", "tree": u_entries, "patterns": u_pats, "absolute": ab})
+        tmeta.append((sorted(u_files), u_entries, u_pats, ab))
     for i in range(40 if quick else 6000):
         dirs = set()
         files = set()
@@ -169,7 +177,7 @@ def run(ctx):
             continue
         dirs = [e[0] for e in entries if e[1]]
         plain = [q for q in (rng.sample(dirs, min(2, len(dirs))) + rng.sample(files, min(2, len(files))) + ["nosuch", "nosuch/a"]) if "*" not in q]
-        jobs.append((files, entries, list(pl)[:6] + plain, absolute))
+        jobs.append((files, entries, (list(pl) if entries is u_entries else list(pl)[:6]) + plain, absolute))
     def run_tree(job):
         files, entries, pl, absolute = job
         d = tempfile.mkdtemp(prefix="t", dir=base)
@@ -185,7 +193,7 @@ def run(ctx):
             arg = os.path.join(d, pat) if absolute else pat
             try:
                 pr = subprocess.run([cli, "-com", "find all 'x'", "-files", arg, "-json"], cwd=d, capture_output=True, timeout=30)
-                out.append((pat, pr.returncode, pr.stdout.decode("latin-1"), pr.stderr.decode("latin-1")))
+                out.append((pat, pr.returncode, pr.stdout.decode("utf-8", "replace"), pr.stderr.decode("utf-8", "replace")))
             except subprocess.TimeoutExpired:
                 out.append((pat, -9, "", "timeout"))
         shutil.rmtree(d, ignore_errors=True)
